@@ -85,6 +85,7 @@ type FnCtx struct {
 	callSites int
 	og        *ogSpec
 	opKeys    map[ssa.Instruction]string
+	extPtrs   map[string]bool
 	deadBlocks []*ssa.BasicBlock
 	ogResultTypes map[string]types.Type
 	decided   []*OblResult
@@ -188,6 +189,60 @@ func (c *FnCtx) whereNow() string {
 	}
 	p := c.eng.prog.Fset.Position(pos)
 	return fmt.Sprintf("%s:%d", strings.TrimPrefix(p.Filename, repoDir()+"/"), p.Line)
+}
+
+// nilSafety: dereference of pointer term t. `checks nil`: always an obligation. `checks extnil`:
+// an obligation only when t came back from a dependency call (a result nobody in the module
+// constructed: the classic "value used although the call failed"); otherwise assumed.
+func (c *FnCtx) nilSafety(st *State, t Term) {
+	cond := Not(Eq(t, IntLit(0)))
+	if !(c.checks["nil"] || c.checks["all"]) && c.checks["extnil"] && c.extPtrs[t.S] {
+		c.safety("extnil", st, cond)
+		return
+	}
+	c.safety("nil", st, cond)
+}
+
+// markExtResult records the pointer-typed results of a dependency call and assumes Go's
+// (value, error) convention for them: a nil error comes with a non-nil value.
+func (c *FnCtx) markExtResult(res SV, rt types.Type) {
+	if res == nil || rt == nil {
+		return
+	}
+	isPtr := func(t types.Type) bool {
+		_, ok := t.Underlying().(*types.Pointer)
+		return ok
+	}
+	if c.extPtrs == nil {
+		c.extPtrs = map[string]bool{}
+	}
+	switch x := res.(type) {
+	case Tu:
+		// only (pointer, ..., error) results: a single pointer result carries no error to test,
+		// and libraries such as goquery return non-nil selections by convention
+		tu, ok := rt.(*types.Tuple)
+		if !ok || tu.Len() != len(x.Elems) {
+			return
+		}
+		var errTag *Term
+		if last, ok := x.Elems[len(x.Elems)-1].(If); ok && types.Identical(tu.At(tu.Len()-1).Type(), types.Universe.Lookup("error").Type()) {
+			errTag = &last.Tag
+		}
+		for i, el := range x.Elems {
+			sc, ok := el.(Sc)
+			if !ok || !isPtr(tu.At(i).Type()) {
+				continue
+			}
+			if errTag == nil {
+				continue
+			}
+			c.extPtrs[sc.T.S] = true
+			if errTag != nil {
+				c.vc.Assert(Implies(Eq(*errTag, IntLit(0)), Not(Eq(sc.T, IntLit(0)))))
+				c.assume("A-value-or-error: a dependency returning (pointer, error) returns a non-nil pointer when the error is nil")
+			}
+		}
+	}
 }
 
 // safety obligation or assumption depending on `checks`.
@@ -866,10 +921,10 @@ func (c *FnCtx) loadPtr(fr *Frame, st *State, p ssa.Value) SV {
 		return c.loadLoc(st, x.Loc)
 	case Sc:
 		if structOf(et) != nil {
-			c.safety("nil", st, Not(Eq(x.T, IntLit(0))))
+			c.nilSafety(st, x.T)
 			return c.loadStruct(st, et, x.T)
 		}
-		c.safety("nil", st, Not(Eq(x.T, IntLit(0))))
+		c.nilSafety(st, x.T)
 		return c.loadLoc(st, &Loc{Prefix: "cell$" + typeKey(et), Idx: x.T, T: et})
 	}
 	c.abstract("load through unsupported pointer value")
@@ -884,7 +939,7 @@ func (c *FnCtx) derefCheck(st *State, l *Loc) {
 		return
 	}
 	if l.Idx2 == nil {
-		c.safety("nil", st, Not(Eq(l.Idx, IntLit(0))))
+		c.nilSafety(st, l.Idx)
 	}
 }
 
@@ -903,7 +958,7 @@ func (c *FnCtx) storePtr(fr *Frame, st *State, p ssa.Value, v SV) {
 		c.storeLoc(st, x.Loc, v)
 		return
 	case Sc:
-		c.safety("nil", st, Not(Eq(x.T, IntLit(0))))
+		c.nilSafety(st, x.T)
 		if structOf(et) != nil {
 			c.storeStruct(st, et, x.T, v)
 			return
@@ -996,7 +1051,7 @@ func (c *FnCtx) execInstr(fr *Frame, st *State, instr ssa.Instruction) {
 			fr.regs[x] = c.freshValue(x.Type(), "fa")
 			return
 		}
-		c.safety("nil", st, Not(Eq(ref.T, IntLit(0))))
+		c.nilSafety(st, ref.T)
 		loc := fieldLoc(stT, x.Field, ref.T)
 		if structOf(loc.T) != nil {
 			fr.regs[x] = Sc{c.subRef(loc)}
